@@ -6,6 +6,7 @@ import (
 	"math"
 	"sort"
 	"strings"
+	"time"
 
 	"github.com/esimov/gogu/bstree"
 	"github.com/esimov/gogu/cache"
@@ -1258,5 +1259,35 @@ func init() {
 		run(nil)
 		rep.Inc("transitions", n*L)
 		rep.Set("tied_keys_family", fmt.Sprintf("%d histories up to length %d with a comparator that ties 0~5 and 10~15", n, L))
+	}
+}
+
+// ---------------------------------------------------------------- C04: a slow callback
+
+// Traverse hands every present key to the callback however long the callback takes over one of them (a
+// traversal that gives up on a slow consumer -- a timeout around the hand-over -- loses the rest). One real
+// pause of 1.5 s, the only real-time wait of the whole suite: the unchanged tree has no timer anywhere near
+// Traverse, so the pause cannot make it fail.
+func init() {
+	prev := extras["C04"]
+	extras["C04"] = func(rep *core.Report) {
+		if prev != nil {
+			prev(rep)
+		}
+		t := bstree.New[int, string](func(a, b int) bool { return a < b })
+		for _, k := range []int{4, 2, 6, 1, 3, 5, 7} {
+			t.Upsert(k, "v")
+		}
+		var got []int
+		t.Traverse(func(it bstree.Item[int, string]) {
+			if len(got) == 1 {
+				time.Sleep(1500 * time.Millisecond)
+			}
+			got = append(got, it.Key)
+		})
+		if fmt.Sprint(got) != "[1 2 3 4 5 6 7]" {
+			rep.Add("BsTree.Traverse/slow-callback/keys-lost", fmt.Sprintf("Traverse with a callback that takes 1.5 s over the second key visited %v, want all seven keys", got), "BsTree(<) with keys 1..7; Traverse(callback pauses once for 1.5 s)", nil)
+		}
+		rep.Inc("transitions", 8)
 	}
 }
